@@ -156,6 +156,17 @@ def fresh_of_type(eng, st, name, ty):
 
 def fresh_list(eng, name, ty, nargs=0, outer_idx=()):
     inner = ty[5:-1]
+    if inner == "row":
+        # rows [index, complex, real x 6] appended by _lpsd_core (by value)
+        n_ = eng.fresh(name + ".len", "int")
+        fs_ = [eng.fresh_fn(f"{name}.c{j}", 1, "int" if j == 0 else "real") for j in range(9)]
+
+        def fnrow(i):
+            ii = V.int_term(i)
+            items = [Sym(fs_[0](ii), "int"), Cx(Sym(fs_[1](ii), "real"), Sym(fs_[8](ii), "real"))] + [Sym(fs_[j](ii), "real") for j in range(2, 8)]
+            return ListV(items=items)
+
+        return ListV(n=n_, fn=fnrow, etype="row")
     lenf = eng.fresh_fn(name + ".len", len(outer_idx), "int")
     n = Sym(lenf(*[V.int_term(i) for i in outer_idx]), "int") if outer_idx else eng.fresh(name + ".len", "int")
     if inner in ("int", "real", "bool"):
@@ -414,7 +425,12 @@ def cut_loop(eng, node, st, fid, spec, kind, iterv=None):
                 raise Unsupported(f"loop {lab}: probe statement(s) {sorted(missing)} not found in the loop body")
         for s2, oc in body_outs:
             if oc.kind in ("normal", "continue"):
-                for label, val in eval_clauses(eng, s2, fid, norm_clauses(spec.get("step_lemmas"))):
+                senv = None
+                if spec.get("step_env"):
+                    from .contract import eval_text as _et
+
+                    senv = {k_: _et(eng, s2, fid, t_) for k_, t_ in spec["step_env"].items()}
+                for label, val in eval_clauses(eng, s2, fid, norm_clauses(spec.get("step_lemmas")), senv):
                     eng.oblige(s2, "lemma", f"{lab}.{label}", val)
                 if kind == "for":
                     set_target(s2, V.add(i, step))
